@@ -147,7 +147,7 @@ func c13LateVerdict(s *c13LateScn, cOut, sIn *c13Sink, nc, ns int, wait time.Dur
 				why = append(why, "toward the client: "+why2)
 			}
 			if nAct < s.nRelay {
-				why = append(why, fmt.Sprintf("the relay answered %d of %d handshakes (the later transfer was torn down)", nAct, s.nRelay))
+				why = append(why, fmt.Sprintf("the relay answered %d of %d handshakes (a handshake was bypassed or torn down)", nAct, s.nRelay))
 			}
 			return false, strings.Join(why, "; ")
 		}
@@ -204,7 +204,7 @@ func c13LateResetPlain(c *ctx, idx, marker int, confirm2 bool, settle time.Durat
 	defer c13JEnd(rid)
 	cInR, cInW0 := io.Pipe()
 	sOutR, sOutW0 := io.Pipe()
-	cInW, sOutW := &c13JWriter{cInW0, rid, 'c'}, &c13JWriter{sOutW0, rid, 's'}
+	cInW, sOutW := &c13JWriter{w: cInW0, id: rid, side: 'c'}, &c13JWriter{w: sOutW0, id: rid, side: 's'}
 	cOut, gate := newC13Sink(), newC13GateSink()
 	sIn := &gate.c13Sink
 	_ = trzsz.NewTrzszRelay(cInR, cOut, gate, sOutR, trzsz.TrzszOptions{})
@@ -285,7 +285,7 @@ func c13LateResetPlain(c *ctx, idx, marker int, confirm2 bool, settle time.Durat
 	good, why := c13LateVerdict(&full, cOut, sIn, len(full.realC), len(full.realS), 2*time.Second)
 	desc := fmt.Sprintf("late reset (slow server) %s #%d", s.name, idx)
 	c.note(true, desc)
-	if !good && !ok { // the script itself lost step before the verdict: not judged
+	if !good && (!ok || cInW.stuck || sOutW.stuck) { // the script itself lost step before the verdict: not judged
 		c.count("late_reset:plain_inconclusive")
 		return
 	}
@@ -585,10 +585,25 @@ func c13SchedAll(c *ctx, perturbed bool) {
 
 // a pipe writer that journals what it is about to feed
 type c13JWriter struct {
-	w    *io.PipeWriter
-	id   string
-	side byte
+	w     *io.PipeWriter
+	id    string
+	side  byte
+	stuck bool
 }
 
-func (j *c13JWriter) Write(b []byte) (int, error) { c13JWrite(j.id, j.side, b); return j.w.Write(b) }
-func (j *c13JWriter) Close() error                { return j.w.Close() }
+// a write the relay does not take within three seconds is given up (the reader is stuck behind
+// something the scenario did not foresee: the run is then not judged), so that the harness
+// itself never blocks for ever
+func (j *c13JWriter) Write(b []byte) (int, error) {
+	c13JWrite(j.id, j.side, b)
+	done := make(chan struct{})
+	go func() { j.w.Write(b); close(done) }()
+	select {
+	case <-done:
+		return len(b), nil
+	case <-time.After(3 * time.Second):
+		j.stuck = true
+		return 0, io.ErrClosedPipe
+	}
+}
+func (j *c13JWriter) Close() error { return j.w.Close() }
